@@ -21,8 +21,10 @@ from concurrent.futures import ThreadPoolExecutor
 ROOT = os.path.dirname(os.path.dirname(os.path.abspath(__file__)))
 COQ = os.path.join(ROOT, "coq")
 BUILD = os.path.join(ROOT, ".build")
-HARNESS = os.path.join(ROOT, "harness")
-TARGET = os.path.join(BUILD, "cargo-target")
+# A private copy of the harness manifest (other /repo worktree, other target dir) can be
+# selected with RSM_HARNESS_DIR / RSM_TARGET_DIR while developing; the registered checks use the defaults.
+HARNESS = os.environ.get("RSM_HARNESS_DIR", os.path.join(ROOT, "harness"))
+TARGET = os.environ.get("RSM_TARGET_DIR", os.path.join(BUILD, "cargo-target"))
 NPROC = os.cpu_count() or 4
 
 FORBIDDEN = re.compile(
@@ -100,12 +102,8 @@ class Check:
     def coq_check(self, extra_props=(), thorough_coqchk=True, make_timeout=1500):
         pid = self.pid
         props = ["Props." + pid] + ["Props." + p for p in extra_props]
-        rc, out = sh([os.path.join(ROOT, "bin", "coqproject")])
-        if rc != 0:
-            self.coq["detail"] = "coqproject failed: " + out[-2000:]
-            return False
         targets = ["theories/Pins/%s.vo" % pid] + ["theories/Props/%s.vo" % p for p in extra_props]
-        cmd = ["make", "-C", COQ, "-j%d" % NPROC] + targets
+        cmd = [os.path.join(ROOT, "bin", "coqmake")] + targets
         self.coq["checker_cmd"] = "make -C coq -j%d %s ; coqc -Q theories RsM theories/Props/%s.v (Print Assumptions); source audit" % (
             NPROC, " ".join(targets), pid)
         try:
